@@ -319,6 +319,24 @@ def nested_refs(seed):
             if b != em:
                 diffs.append(f"second op: reference {json.dumps(b)[:100]} vs type {json.dumps(em)[:100]}")
             out.append({"label": "reference " + label, "ok": not diffs, "got": "; ".join(diffs)[:300]})
+    # text that is a type EXPRESSION over several module-qualified names (the qualifier occurs more than once)
+    exprs = [
+        ("vm_c11_n.Uid | vm_c11_n.Pt", typing.Union[m.Uid, m.Pt], [("7", 7), (pt_raw, pt_val)]),
+        ("vm_c11_n.Pt | vm_c11_n.Uid | None", typing.Union[m.Pt, m.Uid, None], [(pt_raw, pt_val), (None, None)]),
+        ("vm_c11_n.PtStr | vm_c11_n.Outer.Inner", typing.Union[m.Pt, m.Outer.Inner], [(pt_raw, pt_val), (inner_raw, inner_val)]),
+        ("vm_c11_n.Names | vm_c11_n.Uid", typing.Union[list[str], int], [([1, "b"], ["1", "b"]), ("7", 7)]),
+        ("vm_c11_n.Pt | None", typing.Optional[m.Pt], [(pt_raw, pt_val), (None, None)]),
+    ]
+    for text, plain, samples in exprs:
+        diffs = []
+        for raw, val in samples:
+            for what, fw, fp in (("unmarshal", lambda: typelib.unmarshal(text, raw), lambda: typelib.unmarshal(plain, raw)),
+                                 ("marshal", lambda: typelib.marshal(val, t=text), lambda: typelib.marshal(val, t=plain)),
+                                 ("codec", lambda: typelib.codec(text).encode(val), lambda: typelib.codec(plain).encode(val))):
+                a, b = obs(fw), obs(fp)
+                if a != b:
+                    diffs.append(f"{what}: reference {json.dumps(a)[:90]} vs type {json.dumps(b)[:90]}")
+        out.append({"label": f"reference '{text}' (type expression over qualified names)", "ok": not diffs, "got": "; ".join(diffs)[:300]})
     depth = r.randint(2, 5)
     tree = {"value": "0", "children": []}
     for i in range(depth):
